@@ -1,6 +1,6 @@
 (* C01 -- Transpilation preserves program behaviour (token-preservation clause).
    Property theorems only. *)
-Require Import Base Token Lexer Tree Writer Compile Parser Grammar WriterSpec CommentSpec TokenSpec TokenProofs C01Proofs.
+Require Import Base Token Lexer Tree Writer Compile Parser Grammar WriterSpec CommentSpec RelexSpec TokenSpec TokenProofs C01Proofs RoundTripProofs.
 Require Import Gen.Tables Gen.Printer.
 
 (* every program of the grammar (its tokens matched by the tree, the tree respecting the
@@ -45,3 +45,18 @@ Theorem C01_source_to_code : forall src toks p cfg,
   nolayout (r_code (compile cfg p)) = nolayout (toks_text toks).
 Proof. exact source_to_code. Qed.
 Print Assumptions C01_source_to_code.
+
+(* ROUND TRIP: the compact output of every program of the grammar lexed from a source text
+   lexes and parses back, without error, to the tree it was printed from (positions,
+   after-newline flags and comments aside): the JavaScript text that is emitted is a
+   spelling of the same tree.  [strings_stable] (RelexSpec.v): every string-literal token
+   re-scans to itself once written between double quotes; it fails only for literals that
+   are not valid JavaScript (an incomplete \x / \u escape directly followed by text that
+   completes it after decoding, e.g. "\x\x41": scanned as \xA, re-scanned as \x). *)
+Theorem C01_compact_round_trip : forall src toks p,
+  tokenize src = Some toks -> strings_stable toks = true ->
+  m_program p toks = true -> wf_program p = true ->
+  exists r, reparse_compact p = Some r /\ pr_errors r = [] /\
+            shape_program (pr_program r) = shape_program p.
+Proof. exact program_round_trip_compact. Qed.
+Print Assumptions C01_compact_round_trip.
